@@ -65,7 +65,7 @@ struct ListenerM { int id; LCB cb; Server::Listener* l; int fd; uint16_t port; b
 enum EstabKind { EK_ADDR_OPEN, EK_ADDR_CLOSED, EK_NAME_FAIL, EK_NAME_OPEN, EK_NAME_CLOSED, EK_NUMERIC_OPEN, NEK };   // numeric = host string "127.0.0.1": no resolver involved
 static const char* const EKN[] = { "open-port", "closed-port", "unresolvable-name", "name-of-open-port", "name-of-closed-port", "numeric-host-open-port" };
 struct EstabM { int id; ECB cb; Server::Establisher* e; int fd; uint16_t lport; bool alive, done, openTarget, inBatch, removedSelected; int removedVenue;
-                int kind; bool byName, released, sockKnown; const char* removedClass; };
+                int kind; bool byName, released, sockKnown; const char* removedClass; int notProcessedRechecks; };
 
 enum Act { A_TIMER_NEW, A_TIMER_DEL, A_PAIR_NEW, A_CLIENT_DEL, A_CLIENT_WRITE, A_SUSPEND, A_RESUME, A_LISTEN_NEW, A_LISTEN_DEL, A_ESTAB_NEW, A_ESTAB_DEL, A_BROADCAST_DEAD, A_INTERRUPT,
            A_PEER_SEND, A_PEER_CLOSE, A_RAW_CONNECT, A_RESOLVE, NACT };
@@ -375,7 +375,7 @@ static EstabM* newEstab(int kind) {
   const bool open = kind == EK_ADDR_OPEN || kind == EK_NAME_OPEN || kind == EK_NUMERIC_OPEN, byName = kind == EK_NAME_FAIL || kind == EK_NAME_OPEN || kind == EK_NAME_CLOSED;
   if (byName && ((int)g_es.n >= MAXG || gatesWaiting() >= 6)) return 0;
   EstabM* m = new EstabM; m->id = (int)g_es.n; m->cb.m = m; m->alive = true; m->done = false; m->openTarget = open; m->inBatch = m->removedSelected = false; m->removedVenue = 0;
-  m->kind = kind; m->byName = byName; m->released = m->sockKnown = false; m->removedClass = 0; m->fd = -1; m->lport = 0;
+  m->kind = kind; m->byName = byName; m->released = m->sockKnown = false; m->removedClass = 0; m->fd = -1; m->lport = 0; m->notProcessedRechecks = 0;
   if (kind == EK_ADDR_OPEN || kind == EK_ADDR_CLOSED) {
     setctxf("Server.connect/%s/%s", open ? "open-port" : "closed-port", VN[g_venue]);
     m->e = g_srv->connect(Socket::loopbackAddress, open ? g_rawPort : g_closedPort, m->cb);
@@ -830,6 +830,9 @@ static int idleLiveness() {
       if (!m->released) { cnt("idle_points_with_resolution_pending"); continue; }   // nothing to expect before getaddrinfo has returned
       refreshEstab(m);
       // the resolver thread had written the loop's wake-up descriptor before the scenario went on: the loop has been woken since and is idle again
+      // The wake-up the scenario waited for may have come from another source (a scripted interrupt(), another resolver) while this resolver's own thread
+      // is still between getaddrinfo() and its interrupt(): give it time (bounded progress, 10 s) before calling it a violation.
+      if (!m->sockKnown && ++m->notProcessedRechecks < 10000) { struct timespec ts = { 0, 1000000 }; nanosleep(&ts, 0); cnt("resolution_not_yet_processed_rechecks"); return 1; }
       if (!m->sockKnown) fail("Server.Establisher/by-name/resolution-result-not-processed", "establisher %d: the resolution of its host name completed and the loop was woken, but the loop is about to block again without having started the connect or called onAbolished", m->id);
     }
     cnt("independent_poll_checks");
